@@ -14,7 +14,7 @@ from vfw.core import Violation, digest, jsonable
 from vfw.model import signature as S
 
 PROPERTY = "C15"
-SIZES = {"quick": 4000, "thorough": 120000}
+SIZES = {"quick": 8000, "thorough": 120000}
 RULE = (
     "(a) exhaustive: every well-formed signature with <=2 inputs, 1 output, <=2 pairs per argument (quick: output "
     "<=1 pair) over 2 names (one hostile: 't') x 5 positions: accepted, str() round-trip, names/positions as written, "
@@ -236,6 +236,8 @@ def strategy_impl(draw, tier):
     axis_name = draw(st.sampled_from(HOSTILE))
     return {"names": names, "sig": sig, "targets": targets, "mode": mode, "edit": edit, "spaces": spaces,
             "param_names": list(draw(st.permutations(["v", "dx", "u", "a", "q", "w", "area", "B", "b", "A", "z9", "z10"]))[:3]),
+            # several outputs are hinted as a tuple: typing.Tuple[...] or the builtin generic tuple[...]
+            "tuple_builtin": draw(st.booleans()),
             "axis_name": axis_name, "shift": draw(st.sampled_from([list(s) for s in SHIFTS])),
             "op": draw(st.sampled_from(["diff", "interp", "min", "max"]))}
 
@@ -319,7 +321,7 @@ def check(case, ctx):
             ann[pnames[i]] = typing.Annotated[np.ndarray, ",".join(f"{n}:{p}" for n, p in arg)]
             params.append(pnames[i])
         rets = [typing.Annotated[np.ndarray, ",".join(f"{n}:{p}" for n, p in arg)] for arg in p1["out"]]
-        ann["return"] = rets[0] if len(rets) == 1 else typing.Tuple[tuple(rets)]
+        ann["return"] = rets[0] if len(rets) == 1 else (tuple[tuple(rets)] if case.get("tuple_builtin") else typing.Tuple[tuple(rets)])
         src = f"def f({', '.join(params)}):\n    return None\n"
         ns = {}
         exec(src, ns)  # noqa: S102 - builds a plain function with the generated parameter list
